@@ -496,7 +496,9 @@ func floatDefault(r *vlib.RNG) string {
 }
 
 func strDefault(r *vlib.RNG) string {
-	return vlib.Pick(r, []string{`""`, `"abc"`, `'single'`, `"tab\there"`, `"q\"uote"`, `"\x41\102\n"`, `"unié"`, `"a" "b"`, `"nul\0byte"`, `"\\"`, `"sp ace"`, `"\377\376"`})
+	return vlib.Pick(r, []string{`""`, `"abc"`, `'single'`, `"tab\there"`, `"q\"uote"`, `"\x41\102\n"`, `"unié"`, `"a" "b"`, `"nul\0byte"`, `"\\"`, `"sp ace"`, `"\377\376"`,
+		// escapes directly followed by a character that could continue them
+		`"\0015"`, `"\1012"`, `"\778"`, `"\x41F"`, `"\x4g"`, `"\u00e9a"`, `"\U0001F6000"`, `"\7\07\007\0007"`, `"\xfff"`})
 }
 
 // scalarField fills type/options of a scalar field.
